@@ -172,7 +172,11 @@ def gen_script(rng, solvers=L.SOLVERS, nops=(3, 9), p_mid=0.5, allow_modes=False
                     o_["defer"] = True           # given as the `termination=` argument of the Step that follows
                     ops.append(dict(op="Step", cb=rng.random() < 0.3))
             elif m == "pen":
-                ops.append(dict(op="SetPenalty", pen=gen_pen(rng)))
+                o_ = dict(op="SetPenalty", pen=gen_pen(rng))
+                ops.append(o_)
+                if kind != "POW" and o_["pen"]["kind"] != "none" and rng.random() < 0.35 and not any(q["op"] == "SetStrictRanges" for q in ops):
+                    o_["defer"] = True           # given as the `penalty=` keyword of the Step that follows
+                    ops.append(dict(op="Step", cb=False))
             elif m == "cons" and constraints:
                 cb = box
                 if cb is None:      # a box installed mid-run (below) is the one the new constraints have to respect
@@ -213,6 +217,9 @@ def gen_script(rng, solvers=L.SOLVERS, nops=(3, 9), p_mid=0.5, allow_modes=False
                 if any(q["op"] == "SetEvalMonitor" for q in ops) and rng.random() < 0.35:
                     o["same"] = True      # hand the solver the monitor it is already using (e.g. Solve(EvaluationMonitor=m) a second time)
                 ops.append(o)
+                if kind in ("DE", "NM") and not o["new"] and not o.get("same") and rng.random() < 0.35 and not any(q["op"] == "SetStrictRanges" for q in ops):
+                    o["defer"] = True            # given as the `EvaluationMonitor=` keyword of the Step that follows
+                    ops.append(dict(op="Step", cb=False))
             elif m == "obj":
                 ops.append(dict(op="SetObjective", cost=gen_cost(rng, ndim) if not vector else dict(kind="vector", a=[grid(rng, -2, 2) for _ in range(ndim)])))
     # DE settings given as sticky keywords of the first Step/Solve instead of attributes (boundary values 0 and 1 included)
@@ -222,6 +229,13 @@ def gen_script(rng, solvers=L.SOLVERS, nops=(3, 9), p_mid=0.5, allow_modes=False
                 o["kw"] = dict(strategy=case["strategy"], CrossProbability=rng.choice([0, 0.0, 1.0, 0.5, 0.9]),
                                ScalingFactor=rng.choice([0, 0.0, 1.0, 0.5, 0.8]))
                 case["de_kw"] = True
+                break
+    # Nelder-Mead / Powell options given once as keywords of the first Step/Solve: they stay in force (and travel with a saved solver)
+    if kind in ("NM", "POW") and rng.random() < 0.3:
+        for o in ops:
+            if o["op"] in ("Step", "Solve"):
+                o["kw"] = rng.choice([dict(adaptive=True), dict(radius=0.3), dict(adaptive=True, radius=0.2)]) if kind == "NM" else \
+                          rng.choice([dict(xtol=1e-2), dict(imax=3), dict(xtol=1e-7, imax=6)])
                 break
     case["ops"] = ops
     return case
@@ -266,3 +280,28 @@ def fix_deferred(ops):
         if o.get("defer") and not (i + 1 < len(ops) and ops[i + 1]["op"] == "Step"):
             o.pop("defer")
     return ops
+
+
+def gen_edge_start(rng):
+    """C02: a start point on (or just inside / outside) a finite side of a box whose opposite side is infinite - where the initial simplex /
+    population is built right at the boundary; default range mode, no constraints, a few Steps"""
+    kind = rng.choice(["NM", "NM", "NM", "DE", "POW"])
+    ndim = rng.choice([1, 2, 3])
+    npop = 4 if kind == "DE" else 1
+    lo, hi, x0 = [], [], []
+    for _ in range(ndim):
+        b = rng.choice([-2.0, -1.0, -0.5, 0.5, 1.0, 3.0])
+        side = rng.choice(["lo", "lo", "hi", "both"])
+        d = rng.choice([0.0, 0.0, 0.01, -0.01, 0.04, -0.5, 0.3])      # offset of the guess from the finite side (negative: outside, clipped back)
+        if side == "lo":
+            lo.append(b); hi.append(INF); x0.append(b + d)
+        elif side == "hi":
+            lo.append(-INF); hi.append(b); x0.append(b - d)
+        else:
+            lo.append(b); hi.append(b + rng.choice([0.5, 2.0])); x0.append(b + d)
+    case = dict(solver=kind, ndim=ndim, npop=npop, seed=rng.randrange(10 ** 6), strategy="Best1Bin", cross=0.9, scale=0.8)
+    ops = [dict(op="SetTermination", term=dict(kind="never")), dict(op="SetObjective", cost=dict(kind="quad", a=[grid(rng, -2, 2) for _ in range(ndim)])),
+           dict(op="SetInitialPoints", x0=x0), dict(op="SetStrictRanges", lo=lo, hi=hi)]
+    rng.shuffle(ops)
+    case["ops"] = ops + [dict(op="Step", cb=False) for _ in range(rng.choice([2, 3, 4]))]
+    return case
